@@ -469,6 +469,66 @@ type foundViolation struct {
 	nondet   bool
 }
 
+// recoverCrashTape re-runs a crashing case with crash-safe tape recording and
+// then minimises the recorded tape at process level (one worker process per
+// candidate).  On success fv carries an explicit tape instead of seedOnly.
+func recoverCrashTape(p *propCfg, b *build, fv *foundViolation, seed uint64, tier string, idx int) {
+	tapeFile := filepath.Join(b.scratch, fmt.Sprintf("crashtape-%d.bin", idx))
+	defer os.Remove(tapeFile)
+	r := runChunk(p, b, seed, tier, fv.caseIdx, fv.caseIdx+1, 7000+idx, p.tiers["thorough"].timeout, "-tapeout", tapeFile)
+	if r.crash == nil {
+		return // did not crash again: keep the seed-only replay
+	}
+	data, err := os.ReadFile(tapeFile)
+	if err != nil || len(data) < 8 {
+		return
+	}
+	var vals []uint64
+	for i := 0; i+8 <= len(data); i += 8 {
+		vals = append(vals, binary.LittleEndian.Uint64(data[i:]))
+	}
+	runs := 0
+	try := func(cand []uint64) bool {
+		runs++
+		rf := &replayFile{Property: p.id, Seed: seed, Case: fv.caseIdx, Tier: tier, Tape: cand, Fingerprint: fv.v.Fingerprint}
+		v, err := replayOnce(p, b, rf, 7100+idx*1000+runs)
+		return err == nil && v != nil && v.Fingerprint == fv.v.Fingerprint
+	}
+	if !try(vals) {
+		return // the recorded prefix does not reproduce: keep the seed-only replay
+	}
+	orig := len(vals)
+	deadline := time.Now().Add(90 * time.Second)
+	cur := vals
+	for _, w := range []int{256, 64, 16, 4, 1} {
+		for i := 0; i+w <= len(cur) && runs < 80 && time.Now().Before(deadline); {
+			cand := append(append([]uint64{}, cur[:i]...), cur[i+w:]...)
+			if try(cand) {
+				cur = cand
+			} else {
+				i += w
+			}
+		}
+	}
+	for i := 0; i < len(cur) && runs < 110 && time.Now().Before(deadline); i++ {
+		if cur[i] == 0 {
+			continue
+		}
+		cand := append([]uint64{}, cur...)
+		cand[i] = 0
+		if try(cand) {
+			cur = cand
+		}
+	}
+	for len(cur) > 0 && cur[len(cur)-1] == 0 {
+		cur = cur[:len(cur)-1]
+	}
+	fv.tape = cur
+	fv.seedOnly = false
+	fv.orig = orig
+	fv.runs = runs
+}
+
 // shrinkOne minimises the tape of fv in a worker process of its own.
 func shrinkOne(p *propCfg, b *build, fv *foundViolation, seed uint64, tier string, idx int) {
 	rf := &replayFile{Property: p.id, Seed: seed, Case: fv.caseIdx, Tier: tier, Fingerprint: fv.v.Fingerprint, Tape: fv.tape}
@@ -936,7 +996,22 @@ func main() {
 		var wg sync.WaitGroup
 		sem := make(chan struct{}, *procs)
 		for i, fv := range bt.viols {
-			if !fv.raw || fv.seedOnly || i >= 24 || matchesKnown(p.id, fv.v.Fingerprint) {
+			if i >= 24 || matchesKnown(p.id, fv.v.Fingerprint) {
+				continue
+			}
+			if fv.seedOnly {
+				if i < 6 && fv.v.Oracle != "no-termination" && fv.v.Oracle != "out-of-memory" {
+					wg.Add(1)
+					go func(i int, fv *foundViolation) {
+						defer wg.Done()
+						sem <- struct{}{}
+						defer func() { <-sem }()
+						recoverCrashTape(p, b, fv, seed, *tier, i)
+					}(i, fv)
+				}
+				continue
+			}
+			if !fv.raw {
 				continue
 			}
 			wg.Add(1)
